@@ -3,6 +3,7 @@
    Statements of the machine-checked theorems this property's check relies on.  Each statement is
    spelled out here and proved from the lemma of the same name under `Peppi/` (generated once by
    `bin/mkprops.py`, then kept as source).  What is proved and what is partial: DESIGN.md §4. -/
+import Peppi.Lemmas.Unified
 import Peppi.Lemmas.Trunc
 import Peppi.Lemmas.C04B
 import Peppi.Lemmas.C04C
@@ -12,6 +13,21 @@ import Peppi.Lemmas.ArrowStream
 import Peppi.Lemmas.PeppiRead
 set_option linter.unusedVariables false
 namespace Peppi.Props.C07
+
+/- from `Peppi.Lemmas.Unified` -/
+open Extracted in
+theorem C07_any (T : TextOracle) (r : Replay) (s : Start) (gk : Option GeckoBlocks) (h : r.WFAny T s gk) (hash : Bool)
+    (n : Nat) (hn : n < (r.encodeAny s.version (portOccupancy s) gk).length) :
+    ∃ e, readSlp T { skipFrames := false, computeHash := hash } ((r.encodeAny s.version (portOccupancy s) gk).take n) = .err e :=
+  _root_.Peppi.C07_any T r s gk h hash n hn
+
+/- from `Peppi.Lemmas.Unified` -/
+open Extracted in
+theorem C07_any_skip (T : TextOracle) (r : Replay) (s : Start) (gk : Option GeckoBlocks) (h : r.WFAny T s gk)
+    (e : Bytes) (hfe : r.fend = some e) (hash : Bool)
+    (n : Nat) (hn : n < (r.encodeAny s.version (portOccupancy s) gk).length) :
+    ∃ err, readSlp T { skipFrames := true, computeHash := hash } ((r.encodeAny s.version (portOccupancy s) gk).take n) = .err err :=
+  _root_.Peppi.C07_any_skip T r s gk h e hfe hash n hn
 
 /- from `Peppi.Lemmas.Trunc` -/
 open Extracted in
